@@ -2,6 +2,7 @@
      nsmodel langc03 <in> <out>   reads the `ast`/`plan` lines the harness printed and evaluates
                                   PlanCheck.plan_ok (the verified plan classifier) on the real plan:
        verdict <checked 0|1> | <stmt id>:<class> ... | <fn id>:<class> ... | S <residual stmts> F <residual fns> | D <dead ids> | L <live fn ids>
+       verdict2 <checked main> <checked aug> | classes under the augmented plan | residual | A <added stmt ids>   (PlanCheck.plan_ok2)
      classes: U unreachable, N never-read (covered), NM never-read but rhs may raise Type mismatch /
               declaration kept, DS dead store (flow), DC dead store with calls, X no class;
               functions: UF unused, XF no class *)
@@ -144,7 +145,15 @@ let langc03_mode inp outp =
                (if v.v_checked then 1 else 0)
                (String.concat " " (List.map (fun (i, k) -> Printf.sprintf "%d:%s" (int_of_z i) (cls k)) v.v_stmt))
                (String.concat " " (List.map (fun (i, k) -> Printf.sprintf "%d:%s" (int_of_z i) (fcls k)) v.v_fn))
-               (zs rs) (zs rf) (zs v.v_dead) (zs v.v_live)
+               (zs rs) (zs rf) (zs v.v_dead) (zs v.v_live);
+             (* the same against the plan augmented by the kept writers of never-read locals *)
+             let w = plan_ok2 p ss fs in
+             let m = w.w_main in
+             let (rs2, rf2) = m.v_residual in
+             Printf.fprintf oc "verdict2 %d %d | %s | S %s F %s | A %s\n"
+               (if m.v_checked then 1 else 0) (if w.w_checked_aug then 1 else 0)
+               (String.concat " " (List.map (fun (i, k) -> Printf.sprintf "%d:%s" (int_of_z i) (cls k)) m.v_stmt))
+               (zs rs2) (zs rf2) (zs w.w_aug)
          | Some _, _ -> Printf.fprintf oc "verdict none\n"
          | None, _ -> ())
     | "end" :: id :: _ -> Printf.fprintf oc "end %s\n" id
